@@ -101,6 +101,16 @@ def load_known_findings():
     return known, fixed
 
 
+def unknown_violation_pred(prop):
+    """-> predicate(list of violation dicts): is there a violation that is not a listed known finding?
+    (searches stop early only for those; exploration continues through known findings)"""
+    known, _ = load_known_findings()
+
+    def pred(viols):
+        return any(f"{prop}/{v['clause']}/{v['disc']}" not in known for v in viols)
+    return pred
+
+
 # -- repo identity ------------------------------------------------------------------------
 
 def repo_state():
